@@ -263,6 +263,12 @@ func (h *harness) runCase(c *Case) (fails []failure, rejected bool) {
 			}
 			h.count("defaults:checked")
 			h.count("defaults:kind:" + cd.Val.K)
+			if h.model != nil && !h.quiet {
+				if f := h.tieRoundTrip(bt, cd, p, text); f != nil {
+					f.NoInput = true
+					fail(*f)
+				}
+			}
 			if prob := roundTrip(text, cd.Typ, cd.Conf); prob != "" {
 				f := failure{Part: "defaults", Kind: "property", Class: "default-roundtrip", What: p + ": " + prob}
 				if hasAstral(cd.Val) && h.astralOnly(c, p) {
